@@ -493,7 +493,7 @@ def decorate(tokens, rng, style):
             elif k < 0.75:
                 g = " /*\n" + "\n".join([code] * (size // len(code))) + "\n*/ "
             elif k < 0.9:
-                g = "\n" * rng.choice([1000, 3000, 5000, 70000])       # line numbers cross 256 and 65536
+                g = "\n" * rng.choice([1000, 3000, 5000, 1000, 3000, 70000])       # line numbers cross 256 and 65536
             else:
                 g = "\n" + rng.choice([" ", "\t"]) * size
             gaps[i] = g
